@@ -167,3 +167,9 @@ package casket
 //@   modifies ghost:purges
 //@   at call (*sync.Map).Range assert [purge_before_restore] purges == old(purges) + 1
 //@   ensures [purged_exactly_once] purges == old(purges) + 1
+
+//@ unit commands_sweep props=C11 files=commands.go nilchecks=on nonnil_params=on filter=`casket\.(SplitCommandAndArgs|parseUnixCommand)$`
+//@ // Shared helper of the `on` and `websocket` setups (their sweeps call it): index, slice and nil safety for every command
+//@ // string; the shell-style splitter may return no parts at all (a comment-only command) without an error.
+//@ // parseWindowsCommand (reached only when runtime.GOOS is "windows") is not covered: its part[:len(part)-1] needs an
+//@ // invariant over a string range loop that the engine cannot state yet.
